@@ -175,6 +175,36 @@ def run(out, tier, seed):
     for d in f1:
         d['ops'] = RUN_OPS
     descs += f1
+    # "call-order problems that ampycloud refuses are signalled by AmpycloudError and by no other exception type":
+    # every sequence of stage calls up to length 3 (4 in the thorough tier) on hand-driven chunks, plus sampled longer ones
+    import itertools
+    from .c14 import OPS
+    walks = [list(w) for k in range(1, (3 if tier == 'quick' else 4) + 1) for w in itertools.product(OPS, repeat=k)]
+    wr = random.Random(f'C08order:{seed}')
+    walks += [[wr.choice(OPS) for _ in range(wr.randint(4, 7))] for _ in range(150 if tier == 'quick' else 3000)]
+    for i, w in enumerate(walks):
+        r2 = random.Random(f'C08order:{seed}:{i % 40}')
+        shape = ['decks', 'single', 'nan', 'vv', 'decks', 'split'][i % 6]
+        nt = r2.randint(6, 20)
+        rows = []
+        for c in ['a', 'b'][:r2.choice([1, 2])]:
+            for t in range(nt):
+                dt = -15.0 * (nt - 1 - t)
+                if shape == 'decks':
+                    rows += [[c, dt, 1000 + r2.choice([0, 10]), 1], [c, dt, 3000, 2]]
+                elif shape == 'split':
+                    rows += [[c, dt, 2000 + r2.choice([0, 5]), 1], [c, dt, 2270 + r2.choice([0, 5]), 2]]
+                elif shape == 'single':
+                    rows.append([c, dt, 1500 if (c == 'a' and t == 0) else None, 1 if (c == 'a' and t == 0) else 0])
+                elif shape == 'nan':
+                    rows.append([c, dt, None, 0])
+                else:
+                    rows.append([c, dt, r2.choice([100, 200]), -1])
+        prms = {'MAX_HITS_OKTA0': r2.choice([0, 3])}
+        if r2.random() < 0.3:
+            prms['MSA'] = r2.choice([500, 2500])
+        descs.append({'family': 'F6order', 'name': f'order:{seed}:{i}', 'rows': rows, 'prms': prms, 'indomain': True,
+                      'ops': [['construct', '']] + [list(o) for o in w]})
     traces, inexact = fw.run_scenarios(descs)
     verdicts, stats = fw.judge_traces(out, traces, ['C08_'])
     kinds = {}
